@@ -43,12 +43,14 @@ def gen_one(rng):
     thr_api = None
     feature = []
     if kind == "system":
-        out = rng.choice(["hi\n", "hi", "a\nb\n", "  x  \n", "", "é\r\n", "\n\nq\n"])
+        out = rng.choice(["hi\n", "hi", "a\nb\n", "  x  \n", "", "é\r\n", "\n\nq\n", "a\r\nb\r\n", "first\r\nsecond\r\nthird\n"])
         code = rng.choice([0, 0, 0, 1, 2])
         spawn = rng.random() < 0.05
         sysa = [["spawnerr"]] if spawn else [["exit", code, out, "err"]]
         withstd = rng.random() < 0.7
         exp = out.strip(refimpl.UNI_WS)
+        if "\r\n" in exp and rng.random() < 0.7:
+            exp = exp.replace("\r\n", "\n")      # expected text with LF only: differs from an output with CR LF inside
         if rng.random() < 0.35:
             exp = exp + "x" if exp else "zz"
         if "\n\n" in exp or exp == "":
